@@ -67,7 +67,7 @@ NextMemCopy ==
        IN Truthful(c) /\ st' = c
 
 FillValues(fn) == {0, 65} \cup (IF fn \in {"memset_s", "strset_s", "strnset_s"} THEN {256}
-                              ELSE IF fn = "memset16_s" THEN {300, 65536} ELSE IF fn \in {"wcsset_s", "wcsnset_s"} THEN {300, 1114112} ELSE {70000})
+                              ELSE IF fn = "memset16_s" THEN {300} ELSE IF fn \in {"wcsset_s", "wcsnset_s"} THEN {300, 1114112} ELSE {70000})
 NextFill ==
   /\ st.f \in MemSetFns \cup MemZeroFns \cup StrFillFns
   /\ \E dmax \in Sizes, n \in (IF st.f \in MemSetFns \cup {"strnset_s", "wcsnset_s"} THEN Sizes \cup {K + 1} ELSE {0}),
